@@ -457,156 +457,7 @@ fn c17_vec_equals_buffer_n1() {
     core::mem::forget(rv);
 }
 
-// ------------------------------------------------------------------ C05 / C06 on DST-rule zones (thorough tier): real rule arithmetic,
-// concrete searched year Y0, civil count anywhere in that year +- 2 days
 use crate::timezone::{AlternateTime, Julian0WithLeap, Julian1WithoutLeap, MonthWeekDay, RuleDay};
-
-const fn jan1(y: i32) -> i64 {
-    crate::datetime::days_since_unix_epoch(y, 1, 1) * 86400
-}
-
-/// S_yearwin(Y0): exact year for instants within [Jan 1 Y0-2, Jan 1 Y0+3), other fields packed; outside the window: assert!(false)
-fn yearwin<const Y0: i32>(t: i64, nanoseconds: u32) -> Result<UtcDateTime, TzError> {
-    let b = [jan1(Y0 - 2), jan1(Y0 - 1), jan1(Y0), jan1(Y0 + 1), jan1(Y0 + 2), jan1(Y0 + 3)];
-    assert!(b[0] <= t && t < b[5]);
-    let mut year = Y0 - 2;
-    let mut i = 1;
-    while i < 5 {
-        if t >= b[i] {
-            year = Y0 - 2 + i as i32;
-        }
-        i += 1;
-    }
-    let q = t.to_le_bytes();
-    Ok(UtcDateTime { year, month: q[0], month_day: q[1], hour: q[2], minute: q[3], second: 0, nanoseconds })
-}
-fn stub_yearwin_2000(t: i64, ns: u32) -> Result<UtcDateTime, TzError> {
-    yearwin::<2000>(t, ns)
-}
-fn stub_yearwin_2001(t: i64, ns: u32) -> Result<UtcDateTime, TzError> {
-    yearwin::<2001>(t, ns)
-}
-
-fn any_rule_day(tag: u8) -> Option<RuleDay> {
-    match tag {
-        0 => Julian1WithoutLeap::new(kani::any()).ok().map(RuleDay::Julian1WithoutLeap),
-        1 => Julian0WithLeap::new(kani::any()).ok().map(RuleDay::Julian0WithLeap),
-        _ => MonthWeekDay::new(kani::any(), kani::any(), kani::any()).ok().map(RuleDay::MonthWeekDay),
-    }
-}
-
-fn rule_search_body<const Y0: i32>(ts: u8, te: u8) {
-    let std = any_ltt();
-    let dst = any_ltt();
-    let (ds, de) = match (any_rule_day(ts), any_rule_day(te)) {
-        (Some(a), Some(b)) => (a, b),
-        _ => return,
-    };
-    let st: i32 = kani::any();
-    let et: i32 = kani::any();
-    let alt = match AlternateTime::new(std, dst, ds, st, de, et) {
-        Ok(a) => a,
-        Err(_) => return,
-    };
-    kani::assume(std.ut_offset() != dst.ut_offset());
-    // known finding F2 (role dst-rule-tie-year): start and end coincide in some but not all of the years either algorithm consults
-    let su = st as i64 - std.ut_offset() as i64;
-    let eu = et as i64 - dst.ut_offset() as i64;
-    let mut ties = 0;
-    let mut k = 0;
-    while k < 5 {
-        let y = Y0 - 2 + k;
-        if ds.unix_time(y, su) == de.unix_time(y, eu) {
-            ties += 1;
-        }
-        k += 1;
-    }
-    kani::assume(ties == 0 || ties == 5);
-    let c: i64 = kani::any();
-    kani::assume(jan1(Y0) - 2 * 86400 <= c && c <= jan1(Y0 + 1) + 2 * 86400);
-    CIVIL.store(c, AO::Relaxed);
-    let types = [std, dst];
-    let rule = Some(TransitionRule::Alternate(alt));
-    let zone = match TimeZoneRef::new(&[], &types, &[], &rule) {
-        Ok(z) => z,
-        Err(_) => return,
-    };
-    let mut buf: [Option<FoundDateTimeKind>; 8] = [None; 8];
-    let list = match DateTime::find_n(&mut buf, Y0, 1, 1, 0, 0, 0, NS, zone) {
-        Ok(l) => l,
-        Err(_) => return,
-    };
-    let k = list.count();
-    assert!(list.is_exhaustive());
-    let data = list.data();
-    let i: usize = kani::any();
-    kani::assume(i < k);
-    let ei = match &data[i] {
-        Some(e) => e,
-        None => {
-            assert!(false);
-            return;
-        }
-    };
-    match ei {
-        FoundDateTimeKind::Normal(dt) => {
-            assert!(dt.unix_time as i128 + dt.local_time_type.ut_offset() as i128 == c as i128);
-            match zone.find_local_time_type(dt.unix_time) {
-                Ok(l) => assert!(l.ut_offset() == dt.local_time_type.ut_offset() && l.is_dst() == dt.local_time_type.is_dst()),
-                Err(_) => assert!(false),
-            }
-        }
-        FoundDateTimeKind::Skipped { before_transition: b, after_transition: a } => {
-            let t = b.unix_time;
-            let (ob, oa) = (b.local_time_type.ut_offset() as i64, a.local_time_type.ut_offset() as i64);
-            assert!(a.unix_time == t && ob < oa && t + ob <= c && c < t + oa);
-            assert!(matches!(zone.find_local_time_type(t), Ok(l) if l.ut_offset() as i64 == oa));
-            assert!(matches!(zone.find_local_time_type(t - 1), Ok(l) if l.ut_offset() as i64 == ob));
-        }
-    }
-    // completeness for an arbitrary instant of the window
-    let u: i64 = kani::any();
-    kani::assume(jan1(Y0 - 1) <= u && u < jan1(Y0 + 2));
-    if let Ok(l) = zone.find_local_time_type(u) {
-        if u + l.ut_offset() as i64 == c {
-            let mut found = false;
-            let mut j = 0;
-            while j < k {
-                if let Some(FoundDateTimeKind::Normal(d)) = &data[j] {
-                    if d.unix_time == u {
-                        found = true;
-                    }
-                }
-                j += 1;
-            }
-            assert!(found);
-        }
-    }
-    let j: usize = kani::any();
-    if j < k && i < j {
-        if let Some(ej) = &data[j] {
-            assert!(entry_instant(ei) < entry_instant(ej));
-        }
-    }
-    kani::cover!(k == 2);
-    kani::cover!(matches!(ei, FoundDateTimeKind::Skipped { .. }));
-}
-
-macro_rules! rule_harness {
-    ($name:ident, $y:expr, $stub:ident, $ts:expr, $te:expr) => {
-        #[kani::proof]
-        #[kani::unwind(9)]
-        #[kani::stub(crate::datetime::unix_time, stub_unix_time)]
-        #[kani::stub(crate::datetime::UtcDateTime::from_timespec, $stub)]
-        fn $name() {
-            rule_search_body::<$y>($ts, $te);
-        }
-    };
-}
-rule_harness!(c05_rule_2000_mwd_mwd, 2000, stub_yearwin_2000, 2, 2);
-rule_harness!(c05_rule_2001_mwd_mwd, 2001, stub_yearwin_2001, 2, 2);
-rule_harness!(c05_rule_2000_j1_j0, 2000, stub_yearwin_2000, 0, 1);
-rule_harness!(c05_rule_2001_j0_mwd, 2001, stub_yearwin_2001, 1, 2);
 
 // ------------------------------------------------------------------ C05 / C06 on DST-rule zones, ALL years and ALL rules: the rule-day
 // instants and the calendar are abstracted by their contracts (discharged by Engine A in C04: L1 meaning of rule days, K1 locality,
